@@ -95,6 +95,8 @@ pub use error::{ZbsdiffError, ZbsdiffResult};
 pub use header::{ZBSDIFF1_SIGNATURE, ZbsdiffHeader};
 pub use patcher::{ZbsdiffPatcher, apply_patch_memory};
 pub use utils::{ControlBlock, ControlEntry, compress_zlib, decompress_zlib};
+#[cfg(kani)]
+pub use utils::verif_access as verif_utils;
 
 /// Main ZBSDIFF1 patch structure
 #[derive(Debug, Clone)]
